@@ -53,7 +53,7 @@ def match(r0, r1, M, t):
     for k in range(len(c0)):
         d = np.linalg.norm(c1 - c0[k], axis=1)
         j = int(np.argmin(d))
-        if d[j] > 1e-9:
+        if d[j] > 1e-9 * max(1.0, float(np.abs(t).max())):
             return None
         idx.append(j)
     return np.array(idx)
@@ -80,7 +80,14 @@ def check_scene(ctx, sc, transforms):
         is_perm = not np.allclose(np.abs(M), I3)
         e1 = np.asarray(r1._energy_init_source)[idx, 0, :]
         b1 = (np.asarray(r1._distance_patches_to_source)[idx] / sc['c'] / sc['dt']).astype(int)
-        if np.abs(e1 - e0).max() > 1e-9 * max(e0.max(), 1e-300) or not np.array_equal(b0, b1):
+        far = name.startswith('far')
+        tol = 1e-6 if far else 1e-9      # coordinates of 1e5..1e6 m carry 1e-10 m of rounding each
+        if far:
+            # bins: only where the delay is not within rounding of a bin edge
+            x0 = np.asarray(r0._distance_patches_to_source) / sc['c'] / sc['dt']
+            safe = np.abs(x0 - np.round(x0)) > 1e-6
+            b1 = np.where(safe, b1, b0)
+        if np.abs(e1 - e0).max() > tol * max(e0.max(), 1e-300) or not np.array_equal(b0, b1):
             ctx.violation('placement-initial-energy', 'initial patch energies or arrival bins change under %s' % name, inp, float(np.abs(e1 - e0).max()), 0.0)
             return
         dev = float(np.abs(curve1 - curve0).max() / peak)
@@ -92,11 +99,11 @@ def check_scene(ctx, sc, transforms):
                 return
         else:
             F1 = np.asarray(r1._form_factors_tilde)[np.ix_(idx, idx)][:, :, 0, :]
-            if np.abs(F1 - F0).max() > 1e-9 * max(F0.max(), 1e-300):
+            if np.abs(F1 - F0).max() > tol * max(F0.max(), 1e-300):
                 ctx.violation('placement-form-factors', 'form factors change under %s' % name, inp, float(np.abs(F1 - F0).max()), 0.0)
                 return
-            if dev > 1e-9:
-                ctx.violation('placement-curve', 'receiver curve changes by %.3g of its peak under %s' % (dev, name), inp, dev, 1e-9)
+            if dev > tol:
+                ctx.violation('placement-curve', 'receiver curve changes by %.3g of its peak under %s' % (dev, name), inp, dev, tol)
                 return
         ctx.nontriv([energy.describe(sc), name])
     ctx.sample({'scene': energy.describe(sc), 'transforms': [n for n, *_ in transforms]}, limit=2)
@@ -106,6 +113,8 @@ def gen_transforms(rng, all48):
     sp_all = signed_perms()
     I3 = np.eye(3)
     out = [('translation', I3, rng.uniform(-20, 20, size=3), 1.0, 1.0),
+           # survey / georeferenced coordinates (dyadic, so that the room keeps its shape to 1e-10 m)
+           ('far translation', I3, np.array([2.0 ** 19, 2.0 ** 22, 2.0 ** 7]) * rng.choice([-1.0, 1.0], size=3), 1.0, 1.0),
            ('normal-scaling x2.5', I3, np.zeros(3), 2.5, 1.0),
            ('up-scaling x0.3', I3, np.zeros(3), 1.0, 0.3),
            ('normal-and-up-scaling + translation', I3, rng.uniform(-5, 5, size=3), float(rng.uniform(0.2, 7)), float(rng.uniform(0.2, 7)))]
